@@ -130,6 +130,20 @@ func (e *UKeyWrap) Error() string          { return e.Err.Error() }
 func (e *UKeyWrap) Unwrap() error          { return e.Err }
 func (e *UKeyWrap) ErrorKeyMarker() string { return e.Key }
 
+// UMaybe: a type that is sometimes a leaf (Err nil), sometimes a wrapper.
+type UMaybe struct {
+	Msg string
+	Err error
+}
+
+func (e *UMaybe) Error() string {
+	if e.Err == nil {
+		return e.Msg
+	}
+	return e.Msg + ": " + e.Err.Error()
+}
+func (e *UMaybe) Unwrap() error { return e.Err }
+
 // UMulti: multi-cause node with its own text.
 type UMulti struct {
 	Msg  string
